@@ -30,10 +30,10 @@ class P:
 
 
 def decode_exec(p, order, api="recv", finish=True, cb=None, probe="each", release_at=None, s=0, query_first=False,
-                dup=(), double_finish=False):
+                dup=(), double_finish=False, both=False, refinish=False):
     """One decoder execution. order: ESIs in arrival order (may contain repeats).
     probe: 'each' = complete+gettab after every call, 'end' = only at the end."""
-    out = ["create %d %d dec" % (s, p.codec), p.params_line(s)]
+    out = ["create %d %d dec%s" % (s, p.codec, " both" if both else ""), p.params_line(s)]
     if cb:
         out.append("cb %d %s" % (s, cb))
     if query_first:
@@ -72,14 +72,17 @@ def decode_exec(p, order, api="recv", finish=True, cb=None, probe="each", releas
         if double_finish:
             out.append("finish %d" % s)
             probe_now()
+        if refinish:        # finish again, but only if the session says it is complete (decided by the driver at run time)
+            out.append("refinish %d" % s)
+            probe_now()
     elif not done and probe == "end":
         probe_now()
     out.append("release %d" % s)
     return out
 
 
-def encode_exec(p, order=None, slots="buf", s=0, release_at=None):
-    out = ["create %d %d enc" % (s, p.codec), p.params_line(s)]
+def encode_exec(p, order=None, slots="buf", s=0, release_at=None, both=False):
+    out = ["create %d %d enc%s" % (s, p.codec, " both" if both else ""), p.params_line(s)]
     esis = list(order) if order is not None else list(range(p.k, p.n))
     for i, e in enumerate(esis):
         if release_at is not None and i >= release_at:
